@@ -8,9 +8,10 @@ import importlib
 ap=argparse.ArgumentParser(); ap.add_argument('rule'); ap.add_argument('--repo',default='/repo'); ap.add_argument('--config',default='default'); ap.add_argument('-q',action='store_true')
 a=ap.parse_args()
 class Ctx: pass
+
 t=time.time()
 api,facts,dt=extract(a.config,a.repo)
-ctx=Ctx(); ctx.facts=Facts(api,facts); ctx.effects=Effects(ctx.facts); ctx.config=a.config
+ctx=Ctx(); ctx.cache={}; ctx.repo=a.repo; ctx.facts=Facts(api,facts); ctx.effects=Effects(ctx.facts); ctx.config=a.config
 if not a.q: print('extract+load',time.time()-t)
 mod=importlib.import_module('rules.'+a.rule)
 rep=Report(a.rule.upper(),a.config)
